@@ -17,7 +17,9 @@ Definition C04_faithful_or_refuses_full_statement : Prop :=
 (* With the explicit decidable guard c04_ok (coq/io/CodecGuards.v: no scalar-subclass instance, no uncoercible dict
    key (keys with the same JSON spelling are refused by the dump, see C04_same_spelling_refused), no property-valued entry, defaultdict/tuple of exact class, no hidden payload on the
    object path, ...; object arrays of EVERY rank with cells of any kind are inside: D10 repaired), on the fragment proved by induction
-   (see C05_roundtrip_partial for its description and for what is missing): the loaded value is v itself.
+   (see C05_roundtrip_partial for its description and for what is missing; since user objects on the generic object path are inside --
+   any resolvable class without hidden payload, any state of the fragment -- "the loaded value is v" says for them: same class name,
+   equal state handed to __setstate__ / the constructor): the loaded value is v itself.
    On every generated value with c04_ok the model (by vm_compute) and the implementation are checked to be
    faithful-or-refusing in each run (harness/props/c04.py). *)
 Theorem C04_faithful_or_refuses_partial :
@@ -56,6 +58,12 @@ Proof. split; vm_compute; reflexivity. Qed.
 Theorem C04_surrogates_refuted : corrupts w_surrogates.                    (* '😀' (2 code points) -> 1 code point *)
 Proof. vm_compute. reflexivity. Qed.
 Print Assumptions C04_frozenset_refuted.
+
+(* non-vacuity with user objects: both guards hold of a value with shared objects, non-dict / falsy / None states, an object without
+   state and a __reduce__ constructor, and the conclusion computes *)
+Example C04_faithful_objects_nonvacuous :
+  c04_ok wf w_objects = true /\ c05_guard wf (wd Snapshot.current) wbase w_objects = true /\ rt w_objects = Ok w_objects.
+Proof. repeat split; vm_compute; reflexivity. Qed.
 
 (* the guard excludes every witness *)
 Theorem C04_guard_excludes_witnesses :
